@@ -16,12 +16,32 @@ def classify(res, scs, reps, mons):
             if 'Publish' in h:
                 res.violations.append(dict(signature='C05/publish-never-returns', what=h, case=G.readable(sc, mo['hist'])))
 
+def d9(ctx, res):
+    """the D9 schedule (known finding): blocking Publish waiting for an Ack + pending Subscribe + the
+    consumer publishing before it acks.  Three attempts; the deadlock is deterministic once the
+    writer has announced itself."""
+    binary = C.build_harness()
+    for k in range(3):
+        r, _ = C.run_harness(binary, ['gochan-d9', '-seed', str(ctx['seed'] + k)], ctx['pid'], 'd9_%d.json' % k, timeout=120)
+        res.evaluations += 1; res.count('D9 schedule runs')
+        case = {kk: r[kk] for kk in ('nested_publish_returned', 'outer_publish_returned', 'subscribe_returned', 'released_by_close')}
+        case['schedule'] = 'Subscribe(topic-0); Publish(topic-0, m1) blocks for the Ack holding the read lock; consumer receives m1; Subscribe(topic-1) requests the write lock; consumer calls Publish(topic-1, m2) before Ack'
+        if not r['nested_publish_returned']:
+            res.violations.append(dict(signature='C05/blocking-publish-deadlock-consumer-publishes-before-ack-with-pending-subscribe(D9)',
+                                       what='deadlock: the consumer\'s Publish, the blocked outer Publish and the pending Subscribe never return (until Close)', case=case))
+            if not r['released_by_close']:
+                res.violations.append(dict(signature='C05/deadlock-not-released-by-close', what='the D9 deadlock was not released by Close', case=case))
+            return
+    res.count('D9 schedule did not deadlock')
+
 def run(ctx, seed_offset=0, ncases=None):
     res = C.Result()
     scs, reps, mons = G.run_family(ctx, res, seed_offset=seed_offset, ncases=ncases)
     classify(res, scs, reps, mons)
     G.samples(res, scs, mons)
     res.rule = G.RULE
+    if not seed_offset:
+        d9(ctx, res)
     if ctx['tier'] == 'thorough' and not seed_offset:
         r2 = C.Result()
         G.run_family(ctx, r2, ncases=150, forced_rounds=2, race=True)
